@@ -179,6 +179,10 @@ func VerifC20_KFS() {
 	verifOpened = nil
 	loc := verifPath("loc", vParam("loclen", 3))
 	ctxLoc := verifPath("ctx", vParam("ctxlen", 2))
+	if deep := vConcInt(vndChoice("deepctx", 5)); deep > 0 {
+		// a loading file several directories down (every byte string of that length is out of reach)
+		ctxLoc = []string{"a/b/c", "a/a/b/c", "b/a/c.lisp", "a/b/"}[deep-1]
+	}
 	lib := &FSLibrary{FS: verifFS{}}
 	_, trueloc, data, err := lib.LoadSource(NewSourceContext("n", ctxLoc), loc)
 	vObserve("loc", loc)
